@@ -3,6 +3,7 @@ package engines
 import (
 	"bytes"
 	"fmt"
+	"io"
 	"strings"
 
 	"github.com/spf13/afero"
@@ -18,7 +19,7 @@ import (
 //   rt <writefile|writereader|safewrite|safeexisting> <path-hex> <size> <seed>   (oracle only)
 // ---------------------------------------------------------------------------------------
 
-var c17Stacks = []string{"mem", "os", "bp", "cow", "cache0", "cache1h"}
+var c17Stacks = []string{"mem", "os", "bp", "cow", "cache0", "cache1h", "short"}
 
 func genBytes(size int, seed int) []byte {
 	b := make([]byte, size)
@@ -86,6 +87,19 @@ func c17RunImpl(c corr.Case) []string {
 					}
 				case "writereader":
 					if err := afero.WriteReader(st.Fs, path, bytes.NewReader(data)); err != nil {
+						return "rt fail: " + err.Error()
+					}
+				case "writereader-partial", "safewrite-partial":
+					// a reader that has been read from already: what is written is what is LEFT in it
+					rd := bytes.NewReader(append(genBytes(1+atoi(t[4])%9, 77), data...))
+					io.CopyN(io.Discard, rd, int64(1+atoi(t[4])%9))
+					var err error
+					if t[1] == "writereader-partial" {
+						err = afero.WriteReader(st.Fs, path, rd)
+					} else {
+						err = afero.SafeWriteReader(st.Fs, path, rd)
+					}
+					if err != nil {
 						return "rt fail: " + err.Error()
 					}
 				case "safewrite":
@@ -375,6 +389,8 @@ func c17Large(tier string) []corr.Case {
 					n = len(lines)
 				}
 				cases = append(cases, corr.Case{Lines: append([]string{"case mem"}, lines[:n]...)})
+				// the same through files that hand their bytes out in short, irregular pieces
+				cases = append(cases, corr.Case{Lines: append([]string{"case short"}, lines[:n]...)})
 				lines = lines[n:]
 			}
 		}
@@ -428,7 +444,7 @@ func c17Random(r *corr.Rand, tier string) []corr.Case {
 			}
 			lines = append(lines, "contains "+corr.Hex(content)+args)
 		}
-		kinds := []string{"writefile", "writereader", "safewrite", "safeexisting", "writefile-over", "writereader-over"}
+		kinds := []string{"writefile", "writereader", "safewrite", "safeexisting", "writefile-over", "writereader-over", "writereader-partial", "safewrite-partial"}
 		for k := 0; k < 2; k++ {
 			depth := 1 + rr.Intn(3)
 			p := ""
@@ -453,6 +469,8 @@ func c17Corpus() []corr.Case {
 		mk("case mem", "rt writereader-over 2f612f66 5 1", "rt writefile-over 2f612f67 0 1", "rt writereader-over 2f612f68 40000 3"),
 		mk("case cache0", "rt writereader-over 2f612f66 5 1", "rt writefile-over 2f612f67 9 1"),
 		mk("case os", "rt writereader-over 2f612f66 5 1", "rt writefile-over 2f612f67 9 1"),
+		mk("case mem", "rt writereader-partial 2f612f70 40 3", "rt safewrite-partial 2f612f71 0 4", "rt writereader-partial 2f612f72 40000 8"),
+		mk("case cow", "rt writereader-partial 2f612f70 40 3", "rt safewrite-partial 2f612f71 9 4"),
 		// the directory part is created as spelled: "static/../public" needs static as well as public
 		mk("case osraw", "rt writereader "+corr.HexS("/t/site/static/../public/f.bin")+" 100 1", "rt safewrite "+corr.HexS("/t/s2/static/../public/g.bin")+" 9 2",
 			"rt writereader "+corr.HexS("/t/./a//b/f")+" 5 3", "rt safeexisting "+corr.HexS("/t/s3/x/../y/h.bin")+" 40 4", "rt writefile-over "+corr.HexS("/t/w/f")+" 9 1"),
